@@ -3,6 +3,7 @@ package simcore
 import (
 	"bytes"
 	"fmt"
+	"os"
 	"runtime"
 	"sort"
 	"strconv"
@@ -38,6 +39,10 @@ type Sched struct {
 	liveBy    map[string]int
 	maxLiveBy map[string]int
 	baseOf    map[int64]string
+	// per full name
+	liveByName  map[string]int
+	maxSameName map[string]int
+	fullOf      map[int64]string
 }
 
 // StarveSelf keeps the calling task from being scheduled for the next n
@@ -57,6 +62,14 @@ func (s *Sched) StarveSelf(n int) {
 
 // MaxLive returns the highest number of simultaneously live tasks with the
 // given base name seen so far in this run.
+// MaxSameName reports the largest number of goroutines with one and the same
+// full name (e.g. "indexer:00") that were alive at the same time.
+func (s *Sched) MaxSameName(base string) int {
+	s.mu.Lock()
+	defer s.mu.Unlock()
+	return s.maxSameName[base]
+}
+
 func (s *Sched) MaxLive(name string) int {
 	s.mu.Lock()
 	defer s.mu.Unlock()
@@ -195,12 +208,26 @@ func (s *Sched) GoStart(name string) {
 		s.liveBy = map[string]int{}
 		s.maxLiveBy = map[string]int{}
 		s.baseOf = map[int64]string{}
+		s.liveByName = map[string]int{}
+		s.maxSameName = map[string]int{}
+		s.fullOf = map[int64]string{}
 	}
-	s.baseOf[g] = name
-	s.liveBy[name]++
-	if s.liveBy[name] > s.maxLiveBy[name] {
-		s.maxLiveBy[name] = s.liveBy[name]
+	// "indexer:<prefix>" counts as an "indexer"
+	base := name
+	if i := strings.IndexByte(base, ':'); i >= 0 {
+		base = base[:i]
 	}
+	s.baseOf[g] = base
+	s.liveBy[base]++
+	if s.liveBy[base] > s.maxLiveBy[base] {
+		s.maxLiveBy[base] = s.liveBy[base]
+	}
+	// two live goroutines of the same full name (an index restarted while the old goroutine still runs)
+	s.liveByName[name]++
+	if s.liveByName[name] > s.maxSameName[base] {
+		s.maxSameName[base] = s.liveByName[name]
+	}
+	s.fullOf[g] = name
 	s.mu.Unlock()
 	s.park("start", nil)
 }
@@ -215,6 +242,8 @@ func (s *Sched) GoEnd() {
 		s.ended++
 		s.liveBy[s.baseOf[g]]--
 		delete(s.baseOf, g)
+		s.liveByName[s.fullOf[g]]--
+		delete(s.fullOf, g)
 	}
 	s.mu.Unlock()
 	s.poke()
@@ -376,7 +405,12 @@ func (s *Sched) Loop() string {
 		s.decisions++
 		s.run.schedHash(id, t.point)
 		if s.run.traceSched {
-			s.run.Logf("sched %s@%s", id, t.point)
+			if n, _ := strconv.Atoi(os.Getenv("VERIF_TRACE_STACKS")); n > 0 && int(s.decisions) == n {
+				buf := make([]byte, 1<<20)
+				buf = buf[:runtime.Stack(buf, true)]
+				s.run.Logf("stacks at decision %d:\n%s", n, buf)
+			}
+			s.run.Logf("sched #%d %s@%s of %v t=%v", s.decisions, id, t.point, ids, s.run.simNow())
 		}
 		over := s.decisions > s.maxSteps
 		s.mu.Unlock()
